@@ -18,7 +18,7 @@ EXTENDS Naturals, Sequences, FiniteSets
 (* loop iterations of clean-up while being cancelled)                                                                       *)
 (* plainZero / plainFalse / plainEmpty: plain methods returning 0 / False / an empty bytes object - values all the same              *)
 Kinds == {"coroVal", "coroRaise", "plainNone", "plainVal", "plainRaise", "notCallable", "coroWait", "coroSlow",
-          "plainZero", "plainFalse", "plainEmpty"}
+          "plainZero", "plainFalse", "plainEmpty", "plainWraps"}        \* plainWraps: a plain function that wraps (functools.wraps) a coroutine function
 PlainValued == {"plainVal", "plainZero", "plainFalse", "plainEmpty"}
 IsCoro(k) == k \in {"coroVal", "coroRaise", "coroWait", "coroSlow"}
 
